@@ -98,3 +98,51 @@ class SetShape(_Sig):
 
 
 KERNELS = [TransposeShape(), SetShape()]
+
+
+class DiagonalShape(_Sig):
+    id = "C01.P.shape_diagonal"
+    qual = "diagonal/inner"
+    allowed_raises = ("ValueError",)
+    describe = ("static shape of diagonal(x, axis1, axis2): the input shape with both axes removed and their common length appended (numpy's rule); ValueError iff an axis is out of range "
+                "or the two lengths differ; the wrapped function receives the normalised axes")
+
+    def setup(self, eng, bound=None):
+        pre = self.common(eng)
+        self.a1, self.a2 = z3.Ints("axis1 axis2")
+        x = SRec("tensor", ndim=SInt(self.n))
+        env = {"x": x, "kwargs": SDict({"axis1": SInt(self.a1), "axis2": SInt(self.a2)}), "op": eng.contracts["op"],
+               "axis_always_last": SBool(False), "argname_axis1": SConc("axis1"), "argname_axis2": SConc("axis2")}
+        k = z3.Int("k")
+        # precondition from the call sites: the two axes are distinct (classical_from_numpy.diagonal/inner passes axis1 < axis2, which is the
+        # callee-precondition obligation discharged in C01.P.diag). Without it `del shape_out[max]; del shape_out[min]` deletes one index twice
+        # (model found by z3: ndim 1, axis1 = axis2 = 0 -> IndexError) - unreachable from einx, hence a precondition, not a finding.
+        distinct = self.norm(self.a1) != self.norm(self.a2)
+        return env, pre + [self.n >= 0, distinct, z3.ForAll([k], z3.Implies(z3.And(0 <= k, k < self.n), self.sh[k] >= 0))], {}
+
+    def norm(self, a):
+        return z3.If(a < 0, a + self.n, a)
+
+    def post(self, eng, out, p):
+        n1, n2 = self.norm(self.a1), self.norm(self.a2)
+        inr = z3.And(0 <= n1, n1 < self.n, 0 <= n2, n2 < self.n)
+        valid = z3.And(inr, n1 != n2, z3.Select(self.sh, n1) == z3.Select(self.sh, n2))
+        if isinstance(out, Raise):
+            eng.oblige("post:ValueError only for out-of-range axes or different lengths", p, z3.Not(z3.And(inr, z3.Select(self.sh, n1) == z3.Select(self.sh, n2))), "post")
+            return
+        s = self.static_shape(eng, p)
+        if s is None:
+            eng.oblige("post:result is cast to a tensor with a static shape", p, z3.BoolVal(False), "post")
+            return
+        lo, hi = z3.If(n1 < n2, n1, n2), z3.If(n1 < n2, n2, n1)
+        k = fresh("k")
+        eng.oblige("post:normal exit only for in-range axes of equal length", p, z3.And(inr, z3.Select(self.sh, n1) == z3.Select(self.sh, n2)), "post")
+        eng.oblige("post:static shape = input shape without the two axes, their common length appended", p,
+                   z3.Implies(n1 != n2, z3.And(s.n == self.n - 1, z3.Select(s.arr, self.n - 2) == z3.Select(self.sh, n1),
+                                                z3.ForAll([k], z3.Implies(z3.And(0 <= k, k < self.n - 2), z3.Select(s.arr, k) == z3.If(k < lo, z3.Select(self.sh, k), z3.If(k < hi - 1, z3.Select(self.sh, k + 1), z3.Select(self.sh, k + 2))))))), "post")
+        av, kw = p.ghost.get("op_called_with", ([], {}))
+        okc = isinstance(kw.get("axis1"), SInt) and isinstance(kw.get("axis2"), SInt)
+        eng.oblige("post:the wrapped function receives the normalised axes", p, z3.And(kw["axis1"].t == n1, kw["axis2"].t == n2) if okc else z3.BoolVal(False), "post")
+
+
+KERNELS.append(DiagonalShape())
